@@ -1,1 +1,1 @@
-reg("C17", "c17_glyph.c", "opt", cflags=["-O2"])
+reg("C17", "c17_glyph.c", "opt", cflags=["-O2"], genrename=dict(file="pixman-glyph.c", stem="c17", pfx="C17_PFX"))
